@@ -198,6 +198,15 @@ def shard(P, ver, idx, n, seed):
 
 
 def run(R):
+    _run(R)
+    # objects the LIBRARY builds itself (text extractor, from_rh_vector, CLI, the repository's own tests)
+    # are judged by the same oracles through icontract contracts attached to the real classes
+    from .. import contracts
+    contracts.session(R, "C12")
+    R.require("contract:rh_vector")
+
+
+def _run(R):
     R.rule = RULE
     R.require("rh-format", "round-trip", "acceptance")
     R.assumptions = ["'parses as a number' = accepted by Python's float() (the model calls float() itself)",
